@@ -373,7 +373,14 @@ def build_wbdec(cfg):
 
 def gen_arbiter(rng):
     from worlds.arbiter import WORLD
-    return WORLD.gen_config(rng, "C19")
+    cfg = WORLD.gen_config(rng, "C19")
+    if rng.chance(0.12):
+        # the simplest system: one initiator with the arbiter's own features, word-granular on a
+        # finer-grained bus
+        gs = [x for x in (8, 16, 32, 64) if cfg["g"] <= x <= cfg["dw"]]
+        cfg["intrs"] = [{"g": rng.choice(gs), "feats": list(cfg["feats"])}]
+        cfg["mid_elab"] = None
+    return cfg
 
 
 def build_arbiter(cfg):
